@@ -111,7 +111,7 @@ def run_case(ctx, rng, ci):
         sig = "+".join("%s:%s" % (k, cls[k]) for k in sorted(cls)) or "none"
         ctx.case(sig, strict or empty_dims or "obsrange" in opts,
                  {"inputs": gen.ds_summary(ds), "options": vutil.opts_to_argv(opts), "selected": [len(times), len(leads), len(locs)]})
-        oargv = vutil.opts_to_argv(opts)
+        oargv = vutil.opts_to_argv(opts, rng)
         # --- API: Data attributes
         try:
             data = vutil.build_data(paths, cpath, opts)
